@@ -75,6 +75,8 @@ fn main() {
         }
         // child mode used by follow-exec: runs FollowFileExecutor on one case, hook-driven
         "follow-child" if args.len() == 3 => follow::child(&args[2]),
+        // child mode used by parsetotal: classifies one text (a crash of the process is the observation)
+        "parse-child" if args.len() == 3 => parsetotal::child(&args[2]),
         _ => usage()
     }
 }
